@@ -1,5 +1,5 @@
 """C03 - skeptical acceptance answers match the semantics (narrow clauses only)"""
-from . import accept, cli, provenance, progress
+from . import grounded, accept, cli, provenance, progress
 
 
 def run(ctx):
@@ -17,6 +17,7 @@ def run(ctx):
     progress.rule_selector_freshness(ctx)
     progress.rule_local_selector_retired(ctx)
     accept.rule_stage_layering(ctx, 'skeptical')
+    grounded.rule_grounded_propagation(ctx)
     ctx.assume("rustc's MIR and resolved callees; the tables stated in the property (DS-CO through the grounded solver)")
     return (
         "F2/F5 on the stable solver (no stable extension => YES for every skeptical query), F5 dispatch table (DS-CO and SE-CO through the grounded "
